@@ -85,6 +85,87 @@ def index_bound_violations(func):
     return out
 
 
+def scan_entry_violations(func):
+    """a `while` scan over seq (its body reads seq[I]) whose test is FALSE on entry for a non-empty seq: with the initial
+    constants assigned in front of the loop substituted and len(seq) > 0, the test folds to False, so no entry is ever
+    examined.  Tests that do not fold to a constant are not judged.  -> [(line, text)]"""
+    out = []
+    blocks = [getattr(n_, f_) for n_ in ast.walk(func.node) for f_ in ('body', 'orelse', 'finalbody') if isinstance(getattr(n_, f_, None), list)]
+    for w in ast.walk(func.node):
+        if not isinstance(w, ast.While):
+            continue
+        reads = [x for st in w.body for x in ast.walk(st) if isinstance(x, ast.Subscript) and isinstance(x.slice, ast.Name) and isinstance(x.ctx, ast.Load)]
+        names = {x.id for x in ast.walk(w.test) if isinstance(x, ast.Name)}
+        reads = [x for x in reads if x.slice.id in names]
+        if not reads:
+            continue
+        seqs = {ast.unparse(x.value) for x in reads}
+        init = {}
+        for blk in blocks:
+            if w in blk:
+                for prev in blk[:blk.index(w)]:
+                    if isinstance(prev, ast.Assign) and len(prev.targets) == 1 and isinstance(prev.targets[0], ast.Name):
+                        v = prev.value
+                        init[prev.targets[0].id] = v.value if isinstance(v, ast.Constant) else Ellipsis
+                    elif not isinstance(prev, (ast.Expr, ast.Pass)):
+                        for x in ast.walk(prev):
+                            if isinstance(x, ast.Name) and isinstance(x.ctx, ast.Store):
+                                init[x.id] = Ellipsis
+        class Unk(Exception):
+            pass
+        def ev(e):
+            if isinstance(e, ast.Constant):
+                return e.value
+            if isinstance(e, ast.Name):
+                if e.id in init and init[e.id] is not Ellipsis:
+                    return init[e.id]
+                raise Unk()
+            if isinstance(e, ast.Call) and isinstance(e.func, ast.Name) and e.func.id == 'len' and len(e.args) == 1 and ast.unparse(e.args[0]) in seqs:
+                return 3
+            if isinstance(e, ast.UnaryOp) and isinstance(e.op, ast.Not):
+                return not ev(e.operand)
+            if isinstance(e, ast.BoolOp):
+                vals = []
+                for v in e.values:
+                    try:
+                        vals.append(bool(ev(v)))
+                    except Unk:
+                        vals.append(None)
+                if isinstance(e.op, ast.And):
+                    if False in vals:
+                        return False
+                    if None in vals:
+                        raise Unk()
+                    return True
+                if True in vals:
+                    return True
+                if None in vals:
+                    raise Unk()
+                return False
+            if isinstance(e, ast.Compare) and len(e.ops) == 1:
+                a, b = ev(e.left), ev(e.comparators[0])
+                o = e.ops[0]
+                try:
+                    if isinstance(o, ast.Lt): return a < b
+                    if isinstance(o, ast.LtE): return a <= b
+                    if isinstance(o, ast.Gt): return a > b
+                    if isinstance(o, ast.GtE): return a >= b
+                    if isinstance(o, ast.Eq): return a == b
+                    if isinstance(o, ast.NotEq): return a != b
+                    if isinstance(o, ast.Is): return a is b
+                    if isinstance(o, ast.IsNot): return a is not b
+                except TypeError:
+                    raise Unk()
+            raise Unk()
+        try:
+            if not ev(w.test):
+                out.append((w.lineno, 'while %s: false on entry for a non-empty %s (initial values %s): no entry is ever examined' % (
+                    ast.unparse(w.test), sorted(seqs)[0], {k: v for k, v in init.items() if k in names and v is not Ellipsis})))
+        except Unk:
+            pass
+    return out
+
+
 def use_before_any_binding(func):
     """a local name (assigned somewhere in the function, so local by Python's scoping) that is READ at a point in front of
     which the function text contains no binding of it at all: the first execution of that read raises UnboundLocalError.
